@@ -102,6 +102,21 @@ def to_events(pat, gs, style):
 
 def run_case(item):
     from aiuti import asyncio as aiu
+    if item[0] == 'adaptive':
+        _, cfg, depth, keys = item
+        st = Stats()
+        last = None
+        for ev, obs, run in B.adaptive_programs(aiu, cfg, {}, depth, keys):
+            last = ev
+            st.executions += 1
+            st.transitions += len(ev) + len(obs.batches)
+            st.sig(('adaptive', tuple(ev), tuple(sorted(cfg.items())), B.describe(obs)))
+            st.count('adaptive_programs')
+            for kind, detail in check_log(obs, run, cfg['R']):
+                st.violation(kind, detail, {'events': ev, 'cfg': cfg, 'script': {}, 'form': 'class'})
+        st.sample({'mode': 'adaptive (arrivals around every armed timer deadline)', 'cfg': cfg, 'depth': depth,
+                   'example': last})
+        return st
     n, pat, gapsets, cfgs, styles, forms = item
     st = Stats()
     nk = max(pat) + 1
@@ -144,6 +159,13 @@ def run_case(item):
 
 
 def plan(tier):
+    for mbs in (1, 2, 3):
+        for R in (0.0, 0.5, 2.0):
+            for idur in (0.0, 0.5):
+                yield ('adaptive', {'mbs': mbs, 'mcb': 2, 'R': R, 'batch_dur': 0.0, 'item_dur': idur},
+                       4 if tier == 'quick' else 5, (0,))
+            yield ('adaptive', {'mbs': mbs, 'mcb': 2, 'R': R, 'batch_dur': 0.0, 'item_dur': 0.5},
+                   3 if tier == 'quick' else 4, (0, 1))
     Rs = (0.0, 0.5, 4.0)
     for R in Rs:
         base = {0.0, 0.25, BT - EPS, BT + EPS, 2 * (BT + R) + 0.25}
@@ -178,7 +200,7 @@ def main(tier):
     items = list(plan(tier))
     for st in common.pmap(run_case, items):
         total.merge(st)
-    nmax = max(i[0] for i in items)
+    nmax = max(i[0] for i in items if i[0] != 'adaptive')
     return common.finish(
         PID, tier, total, t0,
         rule=(f'all timed sequences of 1..{nmax} calls over repeating keys, gaps on a grid around batch_timeout, '
